@@ -6,6 +6,7 @@
 #include <stddef.h>
 #include <stdint.h>
 #include <algorithm>
+#include <cmath>
 #include <memory>
 #include <vector>
 
@@ -121,6 +122,26 @@ template <class T>
 size_t BucketBinarySearch(T value, const std::vector<double> &boundaries)
 {
   auto low = std::lower_bound(boundaries.begin(), boundaries.end(), value);
+  return low - boundaries.begin();
+}
+
+// int64_t values beyond 2^53 are not exactly representable as double: compare each boundary with
+// the integer value exactly instead of converting the value (for an integer v, b < v <=> floor(b) < v).
+template <>
+inline size_t BucketBinarySearch<int64_t>(int64_t value, const std::vector<double> &boundaries)
+{
+  auto low = std::lower_bound(boundaries.begin(), boundaries.end(), value,
+                              [](double boundary, int64_t v) {
+                                if (boundary >= 9223372036854775808.0)  // 2^63
+                                {
+                                  return false;
+                                }
+                                if (boundary < -9223372036854775808.0)
+                                {
+                                  return true;
+                                }
+                                return static_cast<int64_t>(std::floor(boundary)) < v;
+                              });
   return low - boundaries.begin();
 }
 
